@@ -8,13 +8,14 @@ LEAN_TARGETS = ["TornadoModel.C30.Props"]
 _T = "TornadoModel.C30."
 THEOREMS = [_T + n for n in [
     "only_input_error", "urlencoded_roundtrip", "urlencoded_roundtrip_entry", "limits_enforced_parts", "limits_enforced_parts_reject",
-    "limits_enforced_header", "multipart_trailing_backslash_refuted",
-    "multipart_roundtrip_partial", "multipart_roundtrip_refuted", "multipart_roundtrip_full_refuted", "limits_exact",
+    "limits_enforced_header", "multipart_roundtrip", "multipart_roundtrip_refuted", "multipart_disposition_recovered",
+    "multipart_trailing_backslash_fixed", "multipart_trailing_backslash_recovered", "limits_exact",
 ]]
 TRUSTED = [
     "bytes.find/rfind/split, str.split/strip/partition/startswith, UTF-8 decoding, urllib.parse.parse_qs(l)/unquote (latin-1), "
     "email.utils (see C43) — modelled as they behave in CPython 3.12 and exercised by the correspondence stream",
-    "the C06 model of HTTPHeaders.parse (part headers, _chars_are_bytes=False) and the C43 model of _parse_header",
+    "the C06 model of HTTPHeaders.parse (part headers, _chars_are_bytes=False) and the C43 model of _parse_header's parameter decoding "
+    "(decode_params / RFC 2231 / collapse); _parseparam is modelled in C30/Model.lean as it is after the fix d01e7a8",
     "the form encoder used by the generator is the Lean definition Spec.encodeMultipart / encodeMultipart2231 / encodeUrlencoded: "
     "the Python encoder's output is compared with it on every generated form",
 ]
@@ -31,9 +32,10 @@ RULE = ("forms of 0-6 fields/files (binary contents, empty values, repeated name
         "types; limits at count-1/count/count+1; non-trivial = a form with >=1 part parsed successfully, or a mutated body")
 EXHAUSTIVE = {"quick": False, "thorough": False}
 CLAUSES = {
-    "multipart with a boundary occurring nowhere in the content is recovered exactly": "multipart_roundtrip_partial (side conditions: no upload "
-        "whose field name ends in a backslash = the known finding, multipart_trailing_backslash_refuted / multipart_roundtrip_full_refuted; boundary without LF — "
-        "multipart_roundtrip_refuted shows the clause is false as written for a boundary containing CR LF, which no Content-Type header can carry)",
+    "multipart with a boundary occurring nowhere in the content is recovered exactly": "multipart_roundtrip (side condition: boundary without LF — "
+        "multipart_roundtrip_refuted shows the clause is false as written for a boundary containing CR LF, which no Content-Type header can carry); "
+        "the former side condition 'no upload whose field name ends in a backslash' is gone with the fix d01e7a8: multipart_disposition_recovered, "
+        "multipart_trailing_backslash_fixed / multipart_trailing_backslash_recovered evaluate the old witness",
     "urlencoded forms are recovered exactly": "urlencoded_roundtrip, urlencoded_roundtrip_entry",
     "any other body succeeds or raises HTTPInputError, never another exception": "only_input_error",
     "part-count and part-header-size limits are enforced": "limits_enforced_parts, limits_enforced_parts_reject, limits_enforced_header, "
@@ -325,7 +327,7 @@ def _roundtrip_domain(case):
     if body.count(b) != len(case["parts"]) + 1:
         return "boundary occurs in the content"
     if not re.fullmatch(r"[0-9A-Za-z'()+_,\-./:=? ]{0,69}[0-9A-Za-z'()+_,\-./:=?]", case["boundary"]):
-        return "boundary outside RFC 2046 bchars"    # also gives `LF not in boundary`, the side condition of multipart_roundtrip_partial
+        return "boundary outside RFC 2046 bchars"    # also gives `LF not in boundary`, the side condition of multipart_roundtrip
     if case["ct"].count("boundary=") != 1 or ";" in case["boundary"]:
         return "content-type header ambiguous"
     for n, fn, ct, v in case["parts"]:
